@@ -165,7 +165,7 @@ def cases(tier, seed):
         for tail in ("X", "9", "XY"):
             yield {"kind": "name", "name": nm + tail, "init": False}
     rng = random.Random(seed * 31 + 9)
-    n = 1500 if tier == "quick" else 40000
+    n = 1500 if tier == "quick" else 250000
     for i in range(n):
         base = rng.choice(letters) + rng.choice(second)
         if base in B09_RESERVED2:
